@@ -630,7 +630,9 @@ func (e *EnumType) Set(name string, value int64) error {
 	}
 	e.ToString[value] = name
 	e.ToInt[name] = value
-	if value >= e.last {
+	if len(e.ToInt) == 1 || value >= e.last {
+		// The first member sets the highest value even when it is below
+		// the initial -1.
 		e.last = value
 	}
 	return nil
